@@ -667,7 +667,7 @@ pub fn synthetic_project(seed: u64) -> Project {
                     6 => format!("[{}, number]", r(&mut rng)),
                     7 => format!("Record<string, {}>", r(&mut rng)),
                     8 => format!("{}<{}>", ["Partial", "Required", "Readonly"][rng.below(3)], r_obj(&mut rng)),
-                    9 if use_generic && grow_generic && rng.chance(1, 3) => ["Nest<string>", "Grow<number>", "Swap<string, number>", "Nest<Nest<boolean>>"][rng.below(4)].to_string(),
+                    9 if use_generic && grow_generic && rng.chance(1, 3) => ["Nest<string>", "Grow<number>", "Swap<string, number>", "Nest<Nest<boolean>>", "Fork<string>", "Fork<Nest<number>>"][rng.below(6)].to_string(),
                     9 if use_generic && rng.chance(1, 10) => ["Box<string, number>", "Box", "Box<>"][rng.below(2)].to_string(),
                     9 if use_generic => {
                         if rng.chance(1, 2) {
@@ -1070,7 +1070,7 @@ pub fn synthetic_project(seed: u64) -> Project {
                 src.push_str("export type Box_string = { clash: true };\nexport type Box_X<T> = { w: T };\nexport type X_Y = { s: string };\nexport type Y = { n: number };\nexport type Clashes = { a: Box<string>; b: Box_string; c?: Box<X_Y>; d?: Box_X<Y> };\n");
             }
             if grow_generic {
-                src.push_str("export type Nest<T> = { v: T; n?: Nest<T[]> };\nexport type Grow<T> = { v: T; n?: Grow<{ w: T }> | null };\nexport type Swap<A, B> = { a: A; b: B; swap?: Swap<B, A> };\n");
+                src.push_str("export type Nest<T> = { v: T; n?: Nest<T[]> };\nexport type Grow<T> = { v: T; n?: Grow<{ w: T }> | null };\nexport type Swap<A, B> = { a: A; b: B; swap?: Swap<B, A> };\nexport type Fork<T> = { value: T; many?: Fork<T[]>; one?: Fork<[T]> };\n");
             }
         } else if use_enum || use_generic {
             let mut v = vec![];
@@ -1136,7 +1136,7 @@ pub fn synthetic_project(seed: u64) -> Project {
             }
             if rng.chance(1, 6) {
                 // parser names that collide with Object.prototype members or are reserved words
-                let hostile = ["constructor", "toString", "valueOf", "hasOwnProperty", "__proto__", "class", "default", "new"];
+                let hostile = ["constructor", "toString", "valueOf", "hasOwnProperty", "__proto__", "class", "default", "new", "Gr\u{f6}\u{df}e", "\u{540d}\u{524d}", "\u{3c0}", "$", "_"];
                 keys.push(format!("{}: {}", rng.pick(&hostile), names[0]));
             }
             src.push_str(&format!("parse.buildParsers<{{ {} }}>();\n", keys.join("; ")));
